@@ -3,7 +3,7 @@
 Importable by dotted path so that LazyDI's by-name registrations can reach it.
 Every produced object records which factory made it, a global serial and the arguments it was given.
 """
-from typing import Generic, TypeVar
+from typing import Annotated, Generic, TypeVar
 
 __all__ = ['S0', 'S1', 'S2', 'G', 'reset', 'FACTORIES', 'SYMBOLS']
 
@@ -101,6 +101,15 @@ def f_gen(g: G[int], s0: S0) -> Obj:
 	return Obj('f_gen', g, s0)
 
 
+def f_union(s0: S0, fallback: S1 | None) -> Obj:
+	"""the second annotation names no symbol: always passed through"""
+	return Obj('f_union', s0, fallback)
+
+
+def f_annot(s1: S1, n: Annotated[int, 'meta']) -> Obj:
+	return Obj('f_annot', s1, n)
+
+
 class CtorDep(Made):
 	fid = 'CtorDep'
 
@@ -155,6 +164,8 @@ FACTORIES = {
 	'f_tail2': (f_tail2, ['S1', int, str], 'vf.props.c19_universe.f_tail2'),
 	'f_mid': (f_mid, ['S0', int, 'S1'], 'vf.props.c19_universe.f_mid'),
 	'f_gen': (f_gen, ['G', 'S0'], 'vf.props.c19_universe.f_gen'),
+	'f_union': (f_union, ['S0', (S1, type(None))], 'vf.props.c19_universe.f_union'),
+	'f_annot': (f_annot, ['S1', int], 'vf.props.c19_universe.f_annot'),
 	'CtorDep': (CtorDep, ['S0'], 'vf.props.c19_universe.CtorDep'),
 	'CtorDep2': (CtorDep2, ['S0', 'S1'], 'vf.props.c19_universe.CtorDep2'),
 	'maker_a.make': (maker_a.make, ['S0'], None),
@@ -168,7 +179,7 @@ FACTORIES = {
 # what each factory's product reports as fid
 PRODUCT_FID = {
 	'S0': 'S0', 'S1': 'S1', 'S2': 'S2', 'G': 'G', 'f_plain': 'f_plain', 'f_plain2': 'f_plain2', 'f_dep0': 'f_dep0',
-	'f_dep01': 'f_dep01', 'f_tail': 'f_tail', 'f_tail2': 'f_tail2', 'f_mid': 'f_mid', 'f_gen': 'f_gen',
+	'f_dep01': 'f_dep01', 'f_union': 'f_union', 'f_annot': 'f_annot', 'f_tail': 'f_tail', 'f_tail2': 'f_tail2', 'f_mid': 'f_mid', 'f_gen': 'f_gen',
 	'CtorDep': 'CtorDep', 'CtorDep2': 'CtorDep2', 'maker_a.make': 'Maker.make:a', 'maker_b.make': 'Maker.make:b',
 	'maker_a.make_plain': 'Maker.make_plain:a', 'callable_obj': 'CallableObj', 'lam_plain': 'lam_plain', 'lam_plain2': 'lam_plain2',
 }
